@@ -10,6 +10,7 @@ spec/TotpSerial.tla + MC_TotpSerial.tla.
 """
 from __future__ import annotations
 
+import base64
 import json
 import random
 import urllib.parse as up
@@ -21,8 +22,11 @@ INVS = ["InvRoundTrip", "InvRefused", "InvLabelNeeded"]
 KEYS = {"k1": "S3JDVB7QD2R7JPXX", "k2": "GEZDGNBVGY3TQOJQGEZDGNBVGY3TQOJQ"}
 LABELS = {"l1": ["alice@example.org", "bob"], "l2": ["a b/c%d&e=f+g#h?i \xe9€@x", "50%/off&more=less", "sp ace"]}
 ISSUERS = {"i1": ["Example Corp", "acme"], "i2": ["is\xdf/ue%r&x=y+z", "a&b=c d"]}
+OTHER_KEY = "JBSWY3DPEHPK3PXPJBSWY3DPEHPK3PXP"
 TIMES = [59, 1111111109, 20000000000]
-CORR = ["none", "no-type", "bad-type", "no-version", "future-version", "no-key", "bad-scheme", "no-label", "dup-param", "issuer-conflict"]
+CORR = ["none", "no-type", "bad-type", "no-version", "future-version", "no-key", "bad-scheme", "no-label", "issuer-conflict",
+        "dup-secret", "dup-issuer", "dup-digits", "dup-period", "dup-algorithm"]
+DUP = {"dup-secret": "secret", "dup-issuer": "issuer", "dup-digits": "digits", "dup-period": "period", "dup-algorithm": "algorithm"}
 
 
 def fields(t):
@@ -41,8 +45,11 @@ def corrupt_uri(uri, cor, obj):
         return "otpauth://totp/?" + q
     if cor == "no-key":
         return head + "?" + "&".join(p for p in q.split("&") if not p.startswith("secret="))
-    if cor == "dup-param":
-        return uri + "&secret=" + obj.base32_key
+    if cor in DUP:
+        nm = DUP[cor]
+        have = [p for p in q.split("&") if p.startswith(nm + "=")]
+        dflt = {"digits": "6", "period": "30", "algorithm": "SHA1", "issuer": "dup-value"}
+        return uri + ("&" + have[0] if have else f"&{nm}={dflt[nm]}&{nm}={dflt[nm]}")
     if cor == "issuer-conflict":
         path = head[len("otpauth://totp/"):]
         label = path.split(":", 1)[1] if ":" in path else path
@@ -75,7 +82,7 @@ def run(chk):
     chk.rule = ("one case = one (object, class defaults, format, corruption) tuple enumerated by TLC, executed on real classes; "
                 "non-trivial = distinct (format, corruption, which fields differ from the format defaults, which class defaults differ, label/issuer class)")
     consts = dict(Keys={"k1"}, Algs={"sha1", "sha256"} if quick else {"sha1", "sha256", "sha512"}, Digits={"6", "8"}, Periods={"30", "60"},
-                  Labels={"l1", "l2"}, Issuers={"i1", "i2"}, Corruptions=set(CORR), DoEmit=True)
+                  Labels={"l1", "l2"}, Issuers={"i1", "i2"}, Corruptions=set(CORR), Hists={"fresh", "rekeyed"}, DoEmit=True)
     r = tlc.run_instance("MC_TotpSerial", consts, name="C15_mc", invariants=INVS, action_constraint="Emit", workers=1, coverage=False, timeout=1800)
     chk.add_tlc("MC_TotpSerial exhaustive (every object x class defaults x format x corruption)", r)
     cases = r.emits
@@ -98,10 +105,21 @@ def run(chk):
             issuer = ISSUERS[o["issuer"]][0]
         elif o["issuer"] != "none" and D["issuer"] != "none" and ISSUERS[o["issuer"]][0] == ISSUERS[D["issuer"]][0]:
             issuer = ISSUERS[o["issuer"]][1]
-        obj = cls(key=KEYS[o["key"]], alg=o["alg"], digits=int(o["digits"]), period=int(o["period"]), label=label, issuer=issuer)
+        if e["hist"] == "rekeyed":
+            # made with another key, exported in every form, then given its key: only the current state may be written
+            obj = cls(key=OTHER_KEY, alg=o["alg"], digits=int(o["digits"]), period=int(o["period"]), label=label, issuer=issuer)
+            obj.to_dict(), obj.to_json(), obj.pretty_key(), obj.hex_key, obj.generate(TIMES[0])
+            if label:
+                obj.to_uri()
+            obj.key = base64.b32decode(KEYS[o["key"]])
+        else:
+            obj = cls(key=KEYS[o["key"]], alg=o["alg"], digits=int(o["digits"]), period=int(o["period"]), label=label, issuer=issuer)
         want = fields(obj)
-        detail = {"object": want, "class_defaults": D, "format": fmt, "corruption": cor}
-        key = (fmt, cor, o["alg"] != "sha1", o["digits"] != "6", o["period"] != "30", D["alg"] != "sha1", D["digits"] != "6", D["period"] != "30",
+        detail = {"object": want, "class_defaults": D, "format": fmt, "corruption": cor, "history": e["hist"]}
+        if want["key"] != KEYS[o["key"]]:
+            chk.violation("rekey:base32_key-stale", f"after assigning a new key the object reports key {want['key']}", detail)
+            continue
+        key = (fmt, cor, e["hist"], o["alg"] != "sha1", o["digits"] != "6", o["period"] != "30", D["alg"] != "sha1", D["digits"] != "6", D["period"] != "30",
                o["label"], o["issuer"], D["issuer"])
         chk.count(key)
         chk.action(f"{fmt}:{cor}")
